@@ -137,6 +137,72 @@ def cli_case(chk, workdir, main, expect_failed, name, files):
             chk.count("cli_succeeded")
 
 
+def warning_insertions(chk, scratch, corpus):
+    """'warnings never fail the compilation' as a metamorphic law: into every function body of every accepted program of the repository
+    corpus the statement '...' is inserted (the front end answers with warning 2022 and nothing else). The variant must still be
+    accepted: errors == 0, not faulty. Covers bodies of plain, public, generic, operator-overloading and forward-declared functions;
+    a generic body is parsed once per instantiation, so its warning travels through the instantiation machinery."""
+    import re as _re
+    jobs = []
+    for dp, dn, fn in os.walk(os.path.join(corpus, "tests", "testdata", "kddp")):
+        for f in sorted(fn):
+            if not f.endswith(".ddp") or f.startswith("__"):
+                continue
+            path = os.path.join(dp, f)
+            try:
+                lines = open(path, encoding="utf-8").read().split("\n")
+            except (UnicodeDecodeError, OSError):
+                continue
+            out, n = [], 0
+            for i, l in enumerate(lines):
+                out.append(l)
+                if _re.search(r"\bmacht:\s*$", l) and i + 1 < len(lines):
+                    ind = _re.match(r"\t*", lines[i + 1]).group(0)
+                    if len(ind) > len(_re.match(r"\t*", l).group(0)):
+                        out.append(ind + "...")
+                        n += 1
+            if n:
+                jobs.append((path, os.path.join(dp, "__warn_" + f), "\n".join(out), n))
+    chunks = [jobs[i::vlib.NCPU] for i in range(vlib.NCPU)]
+
+    def work(chunk):
+        pr = Probe(scratch)
+        outs = []
+        for orig, var, text, n in chunk:
+            try:
+                r0 = pr.request({"op": "parse", "id": "orig", "file": orig, "cpu_sec": 20})
+                if r0.get("panic") or r0.get("errors") or r0.get("faulty") or r0.get("err"):
+                    outs.append((orig, None, None, n))
+                    continue
+                open(var, "w").write(text)
+                r1 = pr.request({"op": "parse", "id": "warn", "file": var, "cpu_sec": 20})
+                os.unlink(var)
+                outs.append((orig, text, r1, n))
+            except ProbeDied:
+                outs.append((orig, None, None, n))
+        pr.close()
+        return outs
+
+    for outs in vlib.pmap(work, [c for c in chunks if c]):
+        for orig, text, r, n in outs:
+            if r is None:
+                chk.count("warning_insertion_bases_not_accepted")
+                continue
+            chk.evaluations += 1
+            chk.distinct.add("warn:" + os.path.relpath(orig, corpus))
+            chk.count("warning_insertions", n)
+            warns = [d for d in (r.get("diags") or []) if d["level"] != 2]
+            chk.count("warnings_delivered_by_insertions", len(warns))
+            if r.get("panic"):
+                chk.count("panics_left_to_C03")
+                continue
+            if r.get("errors") or r.get("faulty") or r.get("err"):
+                errs = [d for d in (r.get("diags") or []) if d["level"] == 2]
+                chk.violation({"kind": "flag", "law": "a statement that only warns makes the compilation fail", "codes": sorted({d["code"] for d in errs})[:4]},
+                              files={"variant.ddp": text, "result.json": json.dumps(r, indent=1, ensure_ascii=False), "base.txt": os.path.relpath(orig, corpus)},
+                              text="%s with '...' inserted into %d function bodies: %d error diagnostics (%s)" % (os.path.relpath(orig, corpus), n, len(errs), [d["msg"][:80] for d in errs[:2]]))
+
+
 def run(tier):
     vlib.ensure_build(asan=False)
     chk = Check(PID, tier)
@@ -146,7 +212,7 @@ def run(tier):
                 "positions (first/last token, alias strings, imported modules, generic instantiations, CRLF, tabs and multi-byte text). Distinct by "
                 "input hash; non-trivial = delivered at least one diagnostic or went through the CLI. Laws per diagnostic: file is a readable source, "
                 "1<=line<=#lines, 1<=column<=runes(line)+1, start<=end, real MakeAdvancedHandler renders it; per module: errors>=1 <=> faulty; "
-                "CLI: errors => exit!=0; exit!=0 => no executable; exit 0 => executable; a rejected source never reaches code generation (both link modes).")
+                "metamorphic: inserting the warning-only statement '...' into every function body of an accepted corpus program leaves it accepted; CLI: errors => exit!=0; exit!=0 => no executable; exit 0 => executable; a rejected source never reaches code generation (both link modes).")
     chk.assumptions = ["an error value returned by parser.Parse (e.g. invalid UTF-8) counts as a delivered error diagnostic",
                        "a front-end crash is C03's finding and is not judged here"]
     with Scratch("c07") as sc:
@@ -184,6 +250,8 @@ def run(tier):
                     chk.violation({"kind": "flag", "law": "errors but not faulty", "codes": sorted({d["code"] for d in r["diags"] if d["level"] == 2})}, files=files, text=b["detail"])
                 else:
                     chk.violation({"kind": "flag", "law": "faulty without error diagnostic"}, files=files, text=b["detail"])
+
+        warning_insertions(chk, sc.path, res["corpus0"])
 
         # targeted positions + import graphs through the serving probe
         rnd = random.Random(seed)
